@@ -74,5 +74,100 @@ def select_by(ctx, s, pred, sort=V):
     return filter_seq(ctx, s.len, lambda k: pred(s.at(k)), lambda k: s.at(k), s.sort if s.sort is not None else sort)
 
 
+def key_lt(it, a, b):
+    """Python < on sort keys: tuples lexicographically, False < True, ints, opaque values by v_lt."""
+    if isinstance(a, tuple) and isinstance(b, tuple):
+        if len(a) != len(b):
+            raise Unsupported("comparison of tuples of different length")
+        if not a:
+            return z3.BoolVal(False)
+        head = zb(key_lt(it, a[0], b[0]))
+        if len(a) == 1:
+            return head
+        return z3.Or(head, z3.And(zb(M.py_eq(it, a[0], b[0])), zb(key_lt(it, a[1:], b[1:]))))
+    from .core import is_boollike, is_intlike
+    if is_boollike(a) and is_boollike(b):
+        return z3.And(z3.Not(zbool(a)), zbool(b))
+    if is_intlike(a) and is_intlike(b):
+        return zint(a) < zint(b)
+    return v_lt(M.to_v(it, a), M.to_v(it, b))
+
+
+def zb(x):
+    return z3.BoolVal(x) if isinstance(x, bool) else x
+
+
+class Perm:
+    """A bijection of [0,n): perm/inv with the defining axioms assumed."""
+    def __init__(self, ctx, n, base="perm"):
+        self.n = n
+        self.perm = ctx.fresh_fn(base, INT, INT)
+        self.inv = ctx.fresh_fn(base + "_inv", INT, INT)
+        j = z3.Int("j!pm")
+        nn = zint(n)
+        ctx.assumptions.append(z3.ForAll([j], z3.Implies(z3.And(0 <= j, j < nn), z3.And(
+            0 <= self.perm(j), self.perm(j) < nn, self.inv(self.perm(j)) == j)), patterns=[self.perm(j)]))
+        ctx.assumptions.append(z3.ForAll([j], z3.Implies(z3.And(0 <= j, j < nn), z3.And(
+            0 <= self.inv(j), self.inv(j) < nn, self.perm(self.inv(j)) == j)), patterns=[self.inv(j)]))
+
+
+def eval_for_arbitrary(it, fn, elem_of, n, what):
+    """Evaluate fn(elem_of(i)) once for an arbitrary index i; returns proto(i) as a function."""
+    from .loops import subst
+    ctx = it.ctx
+    i = z3.Int(ctx.fresh_name("i" + what))
+    snap = ctx.snapshot()
+    ctx.loop_vars.append(i)
+    try:
+        ctx.assume(in_range(i, n))
+        res = ctx.explore(lambda: it.call(fn, [elem_of(i)], {}))
+    finally:
+        ctx.loop_vars.pop()
+    ctx.restore(snap)
+    oks = [r for r in res if r[1] == "ok"]
+    for conds, kind, val, full in res:
+        if kind == "raise":
+            some = z3.Exists([i], z3.And(in_range(i, n), *conds)) if conds else zint(n) > 0
+            if ctx.branch(some):
+                raise val
+    if len(oks) != 1:
+        from .loops import merge_paths
+        proto = merge_paths([(z3.And(*c) if c else z3.BoolVal(True), v) for c, _, v, _ in oks])
+    else:
+        proto = oks[0][2]
+    for conds, kind, val, full in oks:
+        facts = [a for a in full[0] if not any(a is c for c in conds) and not a.eq(z3.simplify(in_range(i, n)))]
+        if facts:
+            ctx.assumptions.append(z3.ForAll([i], z3.Implies(z3.And(in_range(i, n), *conds), z3.And(*facts))))
+    return lambda j: subst(proto, i, j)
+
+
 def py_sorted(it, args, kwargs):
-    raise Unsupported("sorted() not modelled yet")
+    """sorted(iterable, key=f, reverse=r): assumed contract - the result is the input composed
+    with a permutation, ordered by the keys, and STABLE (also with reverse=True, where equal
+    elements keep their original order).  Precondition (assumed by callers' contracts): < on the
+    occurring keys is a strict weak order."""
+    ctx = it.ctx
+    src = M.unstructure(M.as_seq(it, args[0]))
+    key = kwargs.get("key")
+    reverse = kwargs.get("reverse", False)
+    n = src.len
+    if key is None:
+        keyat = lambda j: src.at(j)
+    else:
+        keyat = eval_for_arbitrary(it, key, lambda i: src.at(i), n, "key")
+    pm = Perm(ctx, n, "sortperm")
+    out = Seq(n, lambda j: src.at(pm.perm(j)), src.sort, note="sorted")
+    out.perm = pm
+    out.src = src
+    a, b = z3.Ints("a!so b!so")
+    ka, kb = keyat(pm.perm(a)), keyat(pm.perm(b))
+    lt_ab, lt_ba = zb(key_lt(it, ka, kb)), zb(key_lt(it, kb, ka))
+    rev = M.truth(it, reverse)
+    rev = z3.BoolVal(rev) if isinstance(rev, bool) else rev
+    rng = z3.And(0 <= a, a < b, b < zint(n))
+    ordered = z3.If(rev, z3.Not(lt_ab), z3.Not(lt_ba))
+    stable = z3.Implies(z3.And(z3.Not(lt_ab), z3.Not(lt_ba)), pm.perm(a) < pm.perm(b))
+    ctx.assumptions.append(z3.ForAll([a, b], z3.Implies(rng, z3.And(ordered, stable)),
+                                     patterns=[z3.MultiPattern(pm.perm(a), pm.perm(b))]))
+    return MList(ctx, out)
